@@ -19,6 +19,7 @@ func tablesFacts(l *loader, out string, all map[string]any) {
 	accessorFacts(l, out, all)
 	pathsFacts(l, out, all)
 	parserConsts(l, out, all)
+	sitesFacts(l, out, all)
 }
 
 // ---- allowed attributes (C17) -------------------------------------------------------------------
@@ -694,4 +695,58 @@ func parserConsts(l *loader, out string, all map[string]any) {
 	all["named_entities"] = named
 	all["void_names"] = voids
 	all["entity_table"] = pairs
+}
+
+// ---- misc sites (C12): every read of RenderOpts.DebugTags -------------------------------------------
+func sitesFacts(l *loader, out string, all map[string]any) {
+	type site struct {
+		File  string `json:"file"`
+		Line  int    `json:"line"`
+		Func  string `json:"func"`
+		Write bool   `json:"write"`
+	}
+	var sites []site
+	for _, p := range sortedKeys(l.files) {
+		if !isProdPkg(p) {
+			continue
+		}
+		for _, f := range l.files[p] {
+			// writes: selector on the LHS of an assignment
+			lhs := map[ast.Node]bool{}
+			ast.Inspect(f, func(n ast.Node) bool {
+				if as, ok := n.(*ast.AssignStmt); ok {
+					for _, e := range as.Lhs {
+						lhs[e] = true
+					}
+				}
+				return true
+			})
+			ast.Inspect(f, func(n ast.Node) bool {
+				sel, ok := n.(*ast.SelectorExpr)
+				if !ok || sel.Sel.Name != "DebugTags" {
+					return true
+				}
+				fd := enclosing(f, sel.Pos())
+				fn := ""
+				if fd != nil {
+					fn = funcName(fd)
+				}
+				file, line := l.pos(sel.Pos())
+				sites = append(sites, site{file, line, fn, lhs[sel]})
+				return true
+			})
+		}
+	}
+	var sb strings.Builder
+	sb.WriteString(header)
+	sb.WriteString("Definition debug_flag_sites : list (string * N * string * bool) := [\n")
+	for i, s := range sites {
+		if i > 0 {
+			sb.WriteString(";\n")
+		}
+		fmt.Fprintf(&sb, "  (%s, %d, %s, %v)", coqStr(s.File), s.Line, coqStr(s.Func), s.Write)
+	}
+	sb.WriteString("].\n")
+	writeFile(out, "Sites.v", sb.String())
+	all["debug_flag_sites"] = sites
 }
